@@ -367,7 +367,7 @@ fn main() {
                                 else if t.tg == 0 { Some(None) }
                                 else if is_fn_item(t.tg) || (t.tg >= 2000 && (t.tg % 1000 == 1 || t.tg % 1000 == 2 || t.tg % 1000 == 12)) { Some(Some("Function")) }
                                 else if is_ctor(t.tg) { Some(Some("Constructor")) }
-                                else if t.tg < 1000 { None }          // locals: type-dependent, decided by the Typing programs
+                                else if t.tg < 1000 { None }          // locals: Function or nothing (type-dependent, decided by the Typing programs; checked below)
                                 else { Some(None) }
                             }
                             "def" => if is_ctor(t.tg) { Some(Some("Constructor")) } else { Some(None) },
@@ -376,6 +376,11 @@ fn main() {
                             _ => None,
                         };
                         let got: Option<String> = hl.iter().find(|h| usize::from(h.range.start()) == t.start && usize::from(h.range.end()) == t.end).map(|h| format!("{:?}", h.tag));
+                        // a reference to a local is a function-typed value or no token at all - never a module or a constructor
+                        if t.r == "ref" && t.tg > 0 && t.tg < 1000 && matches!(got.as_deref(), Some("Module") | Some("Constructor")) {
+                            local.push(json!({"kind": "mismatch", "prop": "C19", "features": {"what": "highlight tag", "role": "local ref", "expected": "Function or none", "got": got, "inner": t.ctx.last().cloned().unwrap_or_default()},
+                                "detail": {"case": case, "text": prog.text, "token": {"idx": t.idx, "text": t.t, "offset": t.start}}}));
+                        }
                         if let Some(e) = exp {
                             if e.map(|x| x.to_string()) != got {
                                 local.push(json!({"kind": "mismatch", "prop": "C19", "features": {"what": "highlight tag", "role": t.r, "expected": e, "got": got, "inner": t.ctx.last().cloned().unwrap_or_default()},
